@@ -419,6 +419,10 @@ def prove_item(kind, name, tier, seed, known=()):
             repo, ctx, eng, pre, canary_paths, n_paths = gen_lemma_vcs(name)
     except Unsupported as e:
         raise Demoted(str(e))
+    except (Demoted, KeyboardInterrupt):
+        raise
+    except Exception as e:      # an AST shape the engine did not anticipate: treat as outside the subset, visibly
+        raise Demoted(f"engine error ({type(e).__name__}: {e}) — treated as a construct outside the subset")
     res = ProofResult()
     res.trusted = set(ctx.trusted)
     timeout = int(os.environ.get("PYVC_TIMEOUT", "60" if tier == "quick" else "150"))
